@@ -6120,6 +6120,8 @@ class LazyListContainer(list):
     def __getitem__(self, index):
         if isinstance(index, slice):
             return [self[i] for i in range(*index.indices(self._count))]
+        if index < 0:
+            index += self._count
         if index in self._values:
             return self._values[index]
         offset = self._offsets[index] # KeyError
